@@ -1,0 +1,52 @@
+//go:build verif
+// +build verif
+
+// Machine-checked contracts for package stringlib (comment-only; read by
+// /verif/govc, see /verif/DESIGN.md §3).  This file declares nothing.
+
+package stringlib
+
+//@ macro goFuncPre(t, c) = (t != nil && t.Runtime != nil && c != nil && 0 <= c.nArgs && c.nArgs <= len(c.args))
+
+// C06 (charge before allocating): in these functions every allocation whose
+// size the program chooses (make, []byte(s), string(b), strings.Repeat,
+// Builder.Grow, ToLower/ToUpper) is preceded by memory charges (RequireBytes ...)
+// that cover it, up to the stated constant slack.
+
+//@ func rep
+//@   prop C06 C19
+//@   arith int
+//@   norte
+//@   requires goFuncPre(t, c)
+//@   modifies everything()
+//@   exits any
+//@   allocs charged slack 0
+//@   loop 1: invariant true
+
+//@ func reverse
+//@   prop C06
+//@   arith int
+//@   norte
+//@   requires goFuncPre(t, c)
+//@   modifies everything()
+//@   exits any
+//@   allocs charged slack 0
+//@   loop 1: invariant true
+
+//@ func lower
+//@   prop C06
+//@   arith int
+//@   norte
+//@   requires goFuncPre(t, c)
+//@   modifies everything()
+//@   exits any
+//@   allocs charged slack 0
+
+//@ func upper
+//@   prop C06
+//@   arith int
+//@   norte
+//@   requires goFuncPre(t, c)
+//@   modifies everything()
+//@   exits any
+//@   allocs charged slack 0
